@@ -168,10 +168,15 @@ func c04Cells(tier string) []Cell {
 			}
 
 			for _, init := range []string{"A", "F", "S", "T"} {
-				for _, sc := range []string{"o", "f"} {
+				for _, sc := range []string{"o", "f", "p"} {
 					for pi, p := range progs {
 						for _, faults := range []bool{false, true} {
 							if faults && (pi == 1 || (tier == "quick" && cfgBits&0x18 != 0x08)) {
+								continue
+							}
+
+							// a panicking builder (recovered by the caller): the plain two-Get program only
+							if sc == "p" && (pi != 3 || faults) {
 								continue
 							}
 
@@ -214,7 +219,7 @@ func init() {
 		Cells: c04Cells, Run: c04Run,
 		Rule: "cell = front-end x configuration x entry state x builder outcome x caller behaviour after return (overwrite the key buffer, reuse one buffer for the next Get as bench/failover.go does, cancel the context, nothing) x backend fault on/off; " +
 			"all schedules within the preemption bound incl. every position of the caller's buffer overwrite relative to the background build; termination is decided by the scheduler's deadlock detection, " +
-			"key locks are counted at quiescence through a verif-tagged accessor; where all builds succeed a Get at quiescence (no time passing) must return the last completed build without building; and a black-box follow-up (forced expiry, two more Gets per key) must build exactly once and observe that build",
+			"builder scripts: all succeed / all fail / all panic on the caller's goroutine (the caller recovers); key locks are counted at quiescence through a verif-tagged accessor; where all builds succeed a Get at quiescence (no time passing) must return the last completed build without building; and a black-box follow-up (forced expiry, two more Gets per key) must build exactly once and observe that build",
 		Assumptions: []string{
 			"deadlock = no runnable controlled thread while some are blocked; no wall-clock time-out is used as an oracle",
 			"the follow-up phase runs under the scheduler after all worker threads joined",
